@@ -5,6 +5,7 @@
 VERIF_DIR="$(cd "$(dirname "${BASH_SOURCE[0]}")" && pwd)"
 export VERIF_DIR CARGO_NET_OFFLINE=true
 cd "$VERIF_DIR" || exit 2
+REPO="${VERIF_REPO:-/repo}"
 mode="${1:-determinism}"
 bin="$VERIF_DIR/sim/target/release/hpsim"
 ./v setup >/dev/null || exit 2
@@ -33,13 +34,13 @@ sensitivity)
         id=$(basename "$d"); [ -f "$d/patch.diff" ] || continue
         checks=$(sed -n 's/.*"caught_by": *\[\([^]]*\)\].*/\1/p' "$d/meta.json" | tr -d '", ' | sed 's/C/ C/g')
         [ -z "$checks" ] && { echo "$id: not expected to be caught (see meta.json)"; continue; }
-        (cd /repo && git diff --quiet) || { echo "repo dirty"; exit 2; }
-        (cd /repo && git apply "$VERIF_DIR/$d/patch.diff") || { echo "$id: patch does not apply"; fail=1; continue; }
+        (cd "$REPO" && git diff --quiet) || { echo "repo dirty"; exit 2; }
+        (cd "$REPO" && git apply "$VERIF_DIR/$d/patch.diff") || { echo "$id: patch does not apply"; fail=1; continue; }
         for c in $checks; do
             ./v check "$c" quick >/dev/null 2>&1; rc=$?
             if [ $rc -eq 1 ]; then echo "$id: caught by $c"; else echo "$id: MISSED by $c (rc=$rc)"; fail=1; fi
         done
-        (cd /repo && git reset -q --hard HEAD && git clean -fdq -- src tests build.rs)
+        (cd "$REPO" && git reset -q --hard HEAD && git clean -fdq -- src tests build.rs)
     done
     exit $fail ;;
 *) echo "usage: selftest.sh determinism|sensitivity"; exit 2 ;;
